@@ -28,7 +28,13 @@ def _check(spec, gi, flip, seed=0):
             return "hash(g) not deterministic"
     except Exception as e:
         return f"hash(g) raised {type(e).__name__}: {e}"
-    for what, h in eqlib.variants(spec, gi, flip, seed):
+    vs = []
+    try:
+        for v in eqlib.variants(spec, gi, flip, seed):
+            vs.append(v)
+    except Exception as e:
+        return f"building the variant after [{vs[-1][0] if vs else 'none'}] through the public API raised {type(e).__name__}: {e}"
+    for what, h in vs:
         try:
             h1 = hash(h)
         except Exception as e:
